@@ -219,7 +219,13 @@ def main():
             elif n == 2 and not chk.thorough:
                 # quick: all ordered pairs over {type} x {id set} with the automatic rule, plus every pair (auto, degree 2) of the same (type, id)
                 red = [a for a in alpha if a[2] == "auto"]
-                seqs = list(itertools.product(red, repeat=2)) + [(a, (a[0], a[1], "deg2")) for a in red] + [((a[0], a[1], "deg2"), a) for a in red]
+                # ... plus every (auto, degree 2) pair of the same type over all pairs of id sets, both orders (overlapping ids, different rules)
+                seqs = list(itertools.product(red, repeat=2))
+                for a in red:
+                    for b in red:
+                        if a[0] == b[0]:
+                            seqs.append((a, (b[0], b[1], "deg2")))
+                            seqs.append(((b[0], b[1], "deg2"), a))
             else:
                 seqs = itertools.product(alpha, repeat=n)
             for seq in seqs:
@@ -246,7 +252,7 @@ def main():
             rejected.append((r["key"], r.get("why", "")))
     cov = dict(states=len(items), transitions=tot["kernel_calls"], traces_validated_against_impl=tot["ok"] + tot["violating"], evaluations=tot["kernel_calls"],
                distinct_nontrivial=tot["nontrivial"], totals=tot, rejected=rejected[:20], samples=samples or [dict(note="none")], exhaustive=True,
-               rule=(f"all ordered sequences of <= {maxlen} integrals over the 32-letter (triangle) / 24-letter (prism) alphabet type x id-set x rule (quick: pairs over the 16/12 automatic-rule letters plus all same-(type,id) auto/degree-2 pairs; length 3: reduced alphabet), "
+               rule=(f"all ordered sequences of <= {maxlen} integrals over the 32-letter (triangle) / 24-letter (prism) alphabet type x id-set x rule (quick: pairs over the 16/12 automatic-rule letters plus all same-type auto/degree-2 pairs over all pairs of id sets; length 3: reduced alphabet), "
                      "weights 2^k; per form every (type, id) target x every local entity (x code pairs) compared with R and all descriptor fields recomputed from the form"))
     chk.finish(cov, assumptions=["dispatch judged through the documented lookup: kernels in [offsets[t], offsets[t+1]) with the given id, filtered by the integration-entity cell-type tag",
                                  "name maps are checked in C20 (named objects exist only on the command-line / compile_ufl_objects path)"])
